@@ -118,6 +118,12 @@ Definition init_world : world :=
      w_bd := BuildDirs.bd_init [] []; w_backups := []; w_lost := []; w_hash := [];
      w_cachefile := []; w_log := []; w_faults := []; w_effects := 0 |}.
 
+(* ordinals of the mutating library calls that must fail (C14) *)
+Definition with_faults (l : list nat) (w : world) : world :=
+  {| w_fs := w_fs w; w_clock := w_clock w; w_nextid := w_nextid w; w_old := w_old w; w_new := w_new w;
+     w_bd := w_bd w; w_backups := w_backups w; w_lost := w_lost w; w_hash := w_hash w;
+     w_cachefile := w_cachefile w; w_log := w_log w; w_faults := l; w_effects := w_effects w |}.
+
 (* ---- canonical observations ---- *)
 Definition show_path (p : path) : string := path_str p.
 
